@@ -103,6 +103,33 @@ func prepareTV(id string) (int, error) {
 			os.Remove(xsrc)
 			os.WriteFile(filepath.Join(dir, "ref_"+base+".go"), []byte(strings.ReplaceAll(string(b), "P_", "R_")), 0644)
 			n++
+		case strings.HasSuffix(name, ".gostyle"):
+			// a Go program converted to XGo style by the real x/format.GopstyleSource (names X_...), compiled
+			// by the real compiler; the same text as plain Go (names R_...) is the reference
+			b, err := os.ReadFile(filepath.Join(src, name))
+			if err != nil {
+				return n, err
+			}
+			base := strings.TrimSuffix(name, ".gostyle")
+			gsrc := filepath.Join(dir, "tmpl_"+base+".go")
+			os.WriteFile(gsrc, []byte(strings.ReplaceAll(string(b), "P_", "X_")), 0644)
+			out := filepath.Join(dir, "xgo_"+base+".go")
+			c := exec.Command(helper, "gopstyle", gsrc, out)
+			c.Env = goEnv()
+			c.Dir = hdir
+			if o, err := c.CombinedOutput(); err != nil {
+				styled, _ := os.ReadFile(out + ".xgo.txt")
+				return n, tvErr(name, err, append(o, append([]byte("\n--- converted source ---\n"), styled...)...))
+			}
+			os.Remove(gsrc)
+			if styled, err := os.ReadFile(out + ".xgo.txt"); err == nil {
+				os.WriteFile(filepath.Join(dir, "styled_"+base+".xgo.txt"), styled, 0644)
+				os.Remove(out + ".xgo.txt")
+			}
+			ref := strings.ReplaceAll(string(b), "P_", "R_")
+			ref = strings.Replace(ref, "func main()", "func R_main()", 1)
+			os.WriteFile(filepath.Join(dir, "ref_"+base+".go"), []byte(ref), 0644)
+			n++
 		case strings.HasSuffix(name, ".go"):
 			b, err := os.ReadFile(filepath.Join(src, name))
 			if err != nil {
